@@ -28,6 +28,7 @@ import (
 	"raven/internal/delivery/lmtp"
 	"raven/internal/delivery/storage"
 	"raven/internal/sasl"
+	"raven/internal/server/extension"
 )
 
 // c20Conn is the server side of a pipe whose deadlines are (a) recorded as the
@@ -38,7 +39,8 @@ type c20Conn struct {
 	net.Conn
 	tlsFlag bool
 	mu      sync.Mutex
-	log     []int // requested durations, ms
+	log     []int // requested read deadlines (SetReadDeadline, SetDeadline), ms
+	wlog    []int // requested write deadlines (SetWriteDeadline, SetDeadline), ms
 }
 
 func (c *c20Conn) IsTLS() bool { return c.tlsFlag }
@@ -55,23 +57,31 @@ func c20Compress(d time.Duration) time.Duration {
 	return d
 }
 
-func (c *c20Conn) note(t time.Time) time.Time {
-	if t.IsZero() {
-		c.mu.Lock()
-		c.log = append(c.log, 0)
-		c.mu.Unlock()
-		return t
+func (c *c20Conn) note(t time.Time, rd, wr bool) time.Time {
+	ms := 0
+	out := t
+	if !t.IsZero() {
+		d := time.Until(t)
+		ms = int(math.Round(float64(d) / float64(time.Millisecond)))
+		out = time.Now().Add(c20Compress(d))
 	}
-	d := time.Until(t)
 	c.mu.Lock()
-	if len(c.log) < 5000 { // a handler spinning on a dead connection must not fill the memory
-		c.log = append(c.log, int(math.Round(float64(d)/float64(time.Millisecond))))
+	if rd && len(c.log) < 5000 { // a handler spinning on a dead connection must not fill the memory
+		c.log = append(c.log, ms)
+	}
+	if wr && len(c.wlog) < 5000 {
+		c.wlog = append(c.wlog, ms)
 	}
 	c.mu.Unlock()
-	return time.Now().Add(c20Compress(d))
+	return out
 }
-func (c *c20Conn) SetReadDeadline(t time.Time) error { return c.Conn.SetReadDeadline(c.note(t)) }
-func (c *c20Conn) SetDeadline(t time.Time) error     { return c.Conn.SetDeadline(c.note(t)) }
+func (c *c20Conn) SetReadDeadline(t time.Time) error {
+	return c.Conn.SetReadDeadline(c.note(t, true, false))
+}
+func (c *c20Conn) SetWriteDeadline(t time.Time) error {
+	return c.Conn.SetWriteDeadline(c.note(t, false, true))
+}
+func (c *c20Conn) SetDeadline(t time.Time) error { return c.Conn.SetDeadline(c.note(t, true, true)) }
 
 var c20Conns = map[string]*c20Conn{}
 
@@ -155,7 +165,30 @@ func init() {
 		}
 		c.mu.Lock()
 		defer c.mu.Unlock()
-		return Obs{"log": append([]int(nil), c.log...)}
+		return Obs{"log": append([]int(nil), c.log...), "wlog": append([]int(nil), c.wlog...)}
+	})
+
+	// c20_stop_reading: the client keeps its connection open but does not read any more
+	register("c20_stop_reading", func(w *World, op Op) Obs {
+		cl, ok := w.conns[op.str("conn")]
+		if !ok {
+			return Obs{"error": "no conn"}
+		}
+		cl.mu.Lock()
+		cl.paused = true
+		cl.mu.Unlock()
+		_ = cl.conn.SetReadDeadline(time.Now())
+		cl.pumpWG.Wait()
+		_ = cl.conn.SetReadDeadline(time.Time{})
+		return Obs{"ok": true}
+	})
+
+	// c20_idle_timeout: shorten the IDLE inactivity limit (extension.idleTimeout, a
+	// wall-clock limit the recording pipe cannot compress); "supported": false on a
+	// tree that has no such limit
+	register("c20_idle_timeout", func(w *World, op Op) Obs {
+		ok := extension.VerifC20SetIdleTimeout(time.Duration(op.num("ms", 3000)) * time.Millisecond)
+		return Obs{"supported": ok}
 	})
 
 	register("c20_lmtp_open", func(w *World, op Op) Obs {
